@@ -285,10 +285,12 @@ var rules = []rule{
 			}
 			return append(lines, "    end", "    print \"unreachable\"", "end")
 		}
+		// what stands between the terminating statement and the dead code makes no difference
+		gap := [][]string{nil, {""}, {"    // a comment"}, {"", "    // a comment", ""}}[rapid.IntRange(0, 3).Draw(t, "gap")]
 		if b.fn != nil && (b.fn.Ret == nil || b.fn.Ret.K == m.None) || b.hd != nil {
-			return []string{"if true", "    return", "    print \"unreachable\"", "end"}
+			return append(append([]string{"if true", "    return"}, gap...), "    print \"unreachable\"", "end")
 		}
-		return []string{"while true", "    break", "    print \"unreachable\"", "end"}
+		return append(append([]string{"while true", "    break"}, gap...), "    print \"unreachable\"", "end")
 	}},
 	{name: "stray-text-after-statement", lines: func(t *rapid.T, _ blockRef) []string {
 		return [][]string{{"print 1 )"}, {"print \"a\" ]"}, {"zz_s := 1 print zz_s"}, {"zz_s := 1 2", "print zz_s"}, {"cls }"}, {"zz_s := 1 +", "print zz_s"}}[rapid.IntRange(0, 5).Draw(t, "v")]
